@@ -16,9 +16,4 @@ INVARIANT SubAdditivity
 INVARIANT PureIdentities
 INVARIANT LocalInvariance
 INVARIANT RelabelCovariance
-INVARIANT FidelityLaws
-INVARIANT TraceDistanceLaws
-INVARIANT MeasurementLaws
-INVARIANT ChannelLaws
-INVARIANT PauliVectorLaws
 CHECK_DEADLOCK FALSE
